@@ -65,8 +65,13 @@ def match_known(known, rep):
             if _three_digit_ring_number(rep):
                 return k
         if k["matcher"] == "string_decode_raises_recursion_error":
-            got = rep.get("violation", {}).get("detail", {}).get("got")
-            if isinstance(got, (list, tuple)) and list(got[:2]) == ["err", "RecursionError"]:
+            # the decoder recurses once per nested branch: on the current tree a RecursionError needs
+            # close to a thousand Branch symbols in the failing string (limit 1000 minus the caller's
+            # frames).  A RecursionError on a string with fewer of them is another defect and is reported.
+            d = rep.get("violation", {}).get("detail", {})
+            got, string = d.get("got"), d.get("string")
+            if isinstance(got, (list, tuple)) and list(got[:2]) == ["err", "RecursionError"] \
+                    and isinstance(string, str) and string.count("Branch") >= 800:
                 return k
     return None
 
